@@ -79,7 +79,7 @@ def Euler.Quat_toMatrix44 {α : Type} [Add α] [Sub α] [Mul α] [OfNat α 0] [O
   ⟨((1 : α) - ((2 : α) * (t310 + t325))), ((2 : α) * (t330 + t329)), ((2 : α) * (t320 - t319)), (0 : α), ((2 : α) * (t330 - t329)), ((1 : α) - ((2 : α) * (t325 + t309))), ((2 : α) * (t316 + t315)), (0 : α), ((2 : α) * (t320 + t319)), ((2 : α) * (t316 - t315)), ((1 : α) - ((2 : α) * (t310 + t309))), (0 : α), (0 : α), (0 : α), (0 : α), (1 : α)⟩
 
 /-- extracted from the C++ template at T = Sym; 8 path(s) -/
-def Euler.extractEulerXYZ {α : Type} [Add α] [Mul α] [Div α] [Neg α] [LT α] [LE α] [DecidableLT α] [DecidableLE α] [DecidableEq α] [OfNat α 0] [OfNat α 1] [OfNat α 2] (tmin : α) (sqrt : α → α) (sin : α → α) (cos : α → α) (atan2 : α → α → α) (m : M44 α) : (V3 α) :=
+def Euler.extractEulerXYZ {α : Type} [Add α] [Mul α] [Div α] [Neg α] [LT α] [LE α] [DecidableLT α] [DecidableLE α] [DecidableEq α] [OfNat α 0] [OfNat α 1] [OfNat α 2] (tmin : α) (tmax : α) (sqrt : α → α) (sin : α → α) (cos : α → α) (atan2 : α → α → α) (m : M44 α) : (V3 α) :=
   let t64 := (atan2 m.x12 m.x22)
   let t65 := (-t64)
   let t66 := (cos (0 : α))
@@ -128,9 +128,9 @@ def Euler.extractEulerXYZ {α : Type} [Add α] [Mul α] [Div α] [Neg α] [LT α
   let t156 := (t110 * m.x10)
   let t161 := (t113 * m.x21)
   let t162 := (t110 * m.x11)
-  let t8706 := (V3.length tmin sqrt ⟨m.x00, m.x01, m.x02⟩)
-  let t8707 := (V3.length tmin sqrt ⟨m.x10, m.x11, m.x12⟩)
-  let t8708 := (V3.length tmin sqrt ⟨m.x20, m.x21, m.x22⟩)
+  let t8706 := (V3.length tmin tmax sqrt ⟨m.x00, m.x01, m.x02⟩)
+  let t8707 := (V3.length tmin tmax sqrt ⟨m.x10, m.x11, m.x12⟩)
+  let t8708 := (V3.length tmin tmax sqrt ⟨m.x20, m.x21, m.x22⟩)
   let t8709 := (m.x20 / t8708)
   let t8710 := (m.x21 / t8708)
   let t8711 := (m.x22 / t8708)
@@ -252,7 +252,7 @@ def Euler.extractEulerXYZ {α : Type} [Add α] [Mul α] [Div α] [Neg α] [LT α
         ⟨t8965, (atan2 (-((t9190 + t8762) + t128)) (sqrt ((t9235 * t9235) + (t9237 * t9237)))), (atan2 (-((((t8987 * t9081) + t9017) + t9016) + t9015)) ((((t8987 * t9082) + t9023) + t9022) + t9015))⟩
 
 /-- extracted from the C++ template at T = Sym; 8 path(s) -/
-def Euler.extractEulerZYX {α : Type} [Add α] [Mul α] [Div α] [Neg α] [LT α] [LE α] [DecidableLT α] [DecidableLE α] [DecidableEq α] [OfNat α 0] [OfNat α 1] [OfNat α 2] (tmin : α) (sqrt : α → α) (sin : α → α) (cos : α → α) (atan2 : α → α → α) (m : M44 α) : (V3 α) :=
+def Euler.extractEulerZYX {α : Type} [Add α] [Mul α] [Div α] [Neg α] [LT α] [LE α] [DecidableLT α] [DecidableLE α] [DecidableEq α] [OfNat α 0] [OfNat α 1] [OfNat α 2] (tmin : α) (tmax : α) (sqrt : α → α) (sin : α → α) (cos : α → α) (atan2 : α → α → α) (m : M44 α) : (V3 α) :=
   let t66 := (cos (0 : α))
   let t68 := (sin (0 : α))
   let t70 := (t66 * t66)
@@ -262,9 +262,9 @@ def Euler.extractEulerZYX {α : Type} [Add α] [Mul α] [Div α] [Neg α] [LT α
   let t95 := ((0 : α) * t70)
   let t2422 := ((0 : α) * t73)
   let t2431 := ((1 : α) * t73)
-  let t8706 := (V3.length tmin sqrt ⟨m.x00, m.x01, m.x02⟩)
-  let t8707 := (V3.length tmin sqrt ⟨m.x10, m.x11, m.x12⟩)
-  let t8708 := (V3.length tmin sqrt ⟨m.x20, m.x21, m.x22⟩)
+  let t8706 := (V3.length tmin tmax sqrt ⟨m.x00, m.x01, m.x02⟩)
+  let t8707 := (V3.length tmin tmax sqrt ⟨m.x10, m.x11, m.x12⟩)
+  let t8708 := (V3.length tmin tmax sqrt ⟨m.x20, m.x21, m.x22⟩)
   let t8709 := (m.x20 / t8708)
   let t8710 := (m.x21 / t8708)
   let t8711 := (m.x22 / t8708)
@@ -434,9 +434,9 @@ def Euler.extractEulerZYX {α : Type} [Add α] [Mul α] [Div α] [Neg α] [LT α
         ⟨t9815, (-(atan2 (-((t9924 + (t9866 * t8709)) + t9920)) (sqrt ((t9982 * t9982) + (t9979 * t9979))))), (-(atan2 (-((t9910 + (t9855 * t8711)) + t9894)) ((t9904 + (t9855 * t8710)) + t9894)))⟩
 
 /-- extracted from the C++ template at T = Sym; 4 path(s) -/
-def Euler.extractEuler22 {α : Type} [Add α] [Mul α] [Div α] [Neg α] [LT α] [DecidableLT α] [DecidableEq α] [OfNat α 0] [OfNat α 2] (tmin : α) (sqrt : α → α) (atan2 : α → α → α) (m : M22 α) : α :=
-  let t9993 := (V2.length tmin sqrt ⟨m.x00, m.x01⟩)
-  let t9994 := (V2.length tmin sqrt ⟨m.x10, m.x11⟩)
+def Euler.extractEuler22 {α : Type} [Add α] [Mul α] [Div α] [Neg α] [LT α] [DecidableLT α] [DecidableEq α] [OfNat α 0] [OfNat α 2] (tmin : α) (tmax : α) (sqrt : α → α) (atan2 : α → α → α) (m : M22 α) : α :=
+  let t9993 := (V2.length tmin tmax sqrt ⟨m.x00, m.x01⟩)
+  let t9994 := (V2.length tmin tmax sqrt ⟨m.x10, m.x11⟩)
   let t9995 := (m.x10 / t9994)
   let t9999 := (m.x00 / t9993)
   if t9993 = (0 : α) then
@@ -451,9 +451,9 @@ def Euler.extractEuler22 {α : Type} [Add α] [Mul α] [Div α] [Neg α] [LT α]
       (-(atan2 t9995 t9999))
 
 /-- extracted from the C++ template at T = Sym; 4 path(s) -/
-def Euler.extractEuler33 {α : Type} [Add α] [Mul α] [Div α] [Neg α] [LT α] [DecidableLT α] [DecidableEq α] [OfNat α 0] [OfNat α 2] (tmin : α) (sqrt : α → α) (atan2 : α → α → α) (m : M33 α) : α :=
-  let t9993 := (V2.length tmin sqrt ⟨m.x00, m.x01⟩)
-  let t9994 := (V2.length tmin sqrt ⟨m.x10, m.x11⟩)
+def Euler.extractEuler33 {α : Type} [Add α] [Mul α] [Div α] [Neg α] [LT α] [DecidableLT α] [DecidableEq α] [OfNat α 0] [OfNat α 2] (tmin : α) (tmax : α) (sqrt : α → α) (atan2 : α → α → α) (m : M33 α) : α :=
+  let t9993 := (V2.length tmin tmax sqrt ⟨m.x00, m.x01⟩)
+  let t9994 := (V2.length tmin tmax sqrt ⟨m.x10, m.x11⟩)
   let t9995 := (m.x10 / t9994)
   let t9999 := (m.x00 / t9993)
   if t9993 = (0 : α) then
